@@ -10,7 +10,7 @@ def units(tier, seed):
         t = _mk.QUICK_TABLES
     else:
         g = [(n, m) for n in (1, 2, 3) for m in range(1, 9)] + [(4, m) for m in range(1, 7)] + [(5, 1), (5, 2), (5, 3), (6, 2)]
-        t = [(n, m) for n in range(1, 5) for m in range(1, 5)]      # including all 65536 4x4 tables
+        t = _mk.THOROUGH_TABLES      # all 65536 4x4 tables exceeded the 90 min budget of this tier (measured)
     us = gen.kernel_units(g)
     for n, m in g:
         us.append({'name': f'lindig generator {n}x{m}', 'fn': 'unit_lindig', 'args': {'n': n, 'm': m},
